@@ -23,6 +23,7 @@ def check(repo: Repo, rep, tier):
     align_complete(repo, rep)
     zip_lockstep(repo, rep)
     is_unhashable(repo, rep)
+    star_no_insert(repo, rep)
     from .C11 import by_key, align_operands
 
     align_operands(repo, rep)
@@ -575,6 +576,54 @@ def star_freeze(repo: Repo, rep):
     rep.floor("R-STAR-FREEZE", "positional pairings", n, 9)
 
 
+def star_no_insert(repo: Repo, rep):
+    rep.rule(
+        "R-STAR-NO-INSERT",
+        "an insertion into a container display (DictInsert / ListInsert / CallArg with the display as its node) is emitted only behind a star-expression "
+        "test over that node that bails out: apply_all maps every child of the container to its tokens, and a `**mapping` entry / `*rest` element has "
+        "no key / is not an element of the value - the insertion would end the session with an AttributeError (or be placed relative to the wrong "
+        "elements).  The top-level CallArg of `snapshot()` itself is exempt: its node is the snapshot call, not a display the user filled",
+    )
+    from .emit import emission_sites
+
+    global _repo_for_star
+    _repo_for_star = repo
+    n = 0
+    for site in emission_sites(repo):
+        if site.kind not in ("DictInsert", "ListInsert", "CallArg"):
+            continue
+        if site.func.module.rel == "_inline_snapshot.py":
+            continue
+        node_e = site.args.get("node")
+        if node_e is None:
+            continue
+        node_txt = norm(node_e)
+        f, cfg = site.func, site.cfg
+        n += 1
+        tests = _star_tests(f, cfg, node_txt)
+        nn_edges = []
+        for c in cfg.conds():
+            sc = norm(c.ast)
+            if sc == f"{node_txt} is not None":
+                nn_edges.append((c, "F"))
+            elif sc == f"{node_txt} is None":
+                nn_edges.append((c, "T"))
+        # the node may be found not to be a display at all (`isinstance(node, ast.Dict)` false): then nothing is mapped either
+        good = [t for t in tests if t[2] and site.node not in reach(cfg, [cfg.entry], blocked_nodes=[t[0]], blocked_edges=nn_edges)]
+        if good:
+            rep.ok("R-STAR-NO-INSERT", f, site.call, f"{site.kind} into `{node_txt}` behind a {good[0][1]} test that bails out")
+        else:
+            rep.violation(
+                "R-STAR-NO-INSERT",
+                f,
+                site.call,
+                f"{f.qualname} emits a {site.kind} into `{node_txt}` on a path that has not bailed out on star-expressions: for `snapshot({{**defaults, ...}})[new_key]` / `[*rest, x]` apply_all has no tokens for the "
+                "starred child and the whole report / write step ends with an AttributeError",
+                construct=f"{f.qualname}:{site.kind}",
+            )
+    rep.floor("R-STAR-NO-INSERT", "insertion sites with a display node", n, 5)
+
+
 def reeval_refresh(repo: Repo, rep):
     rep.rule(
         "R-REEVAL-REFRESH",
@@ -655,7 +704,23 @@ def map_total(repo: Repo, rep):
                         for i in g.ifs:
                             if value_dependent(i):
                                 bad = bad or i
-            if bad is not None:
+            # map() hands out a container of its own: the stored snapshot value is a private copy, so that a later in-place change
+            # of the object the test passed is seen as "the value of the snapshot changed" (and is not compared with itself)
+            if mname == "map" and vparam and c.name != "ValueAdapter":
+                for r_ in [x for x in body_nodes(m.node) if isinstance(x, ast.Return) and isinstance(x.value, ast.Name) and x.value.id == vparam]:
+                    rep.violation(
+                        "R-MAP-TOTAL",
+                        m,
+                        r_,
+                        f"{c.name}.map can return the container it was given (`return {vparam}`): the snapshot then stores the caller's own list / dict by reference - mutated in place between two "
+                        "evaluations it is compared with itself, the 'value should not change' usage error is never raised and the stale text stays in the file",
+                        construct=f"{c.name}.map:returns-argument",
+                    )
+                    bad = bad or r_
+                    break
+            if bad is not None and isinstance(bad, ast.Return):
+                pass
+            elif bad is not None:
                 rep.violation(
                     "R-MAP-TOTAL",
                     m,
